@@ -3,7 +3,7 @@
 From Coq Require Import QArith ZArith List Bool Arith.
 Import ListNotations.
 From Coq Require Import Permutation.
-Require Import Plinio.Base.Qx Plinio.Model.Reassign Plinio.Proofs.Reassign Plinio.Proofs.ReassignGen.
+Require Import Plinio.Base.Qx Plinio.Model.Reassign Plinio.Proofs.Reassign Plinio.Proofs.ReassignGen Plinio.Proofs.ReassignPromote.
 Local Open Scope nat_scope.
 
 (* The two searches of optimize_prec_assignment, for EVERY cost function of the per-precision channel
@@ -42,6 +42,60 @@ Theorem C20_reassign_matrix_total : forall (P C : nat) (scores : list (list Q)) 
   reassign_ok (reassign scores best) best = true.
 Proof. exact reassign_matrix_total. Qed.
 
+(* ---- channel level: search, then reassignment ---- *)
+(* The count vector the searches keep has every precision that gains channels ABOVE every precision
+   that loses channels (the 0-bit precision, the lowest, is the only one never drained). *)
+Theorem C20_refine_separates : forall (cost : vec -> Q) (init : vec) (skip : nat -> bool),
+  (forall i, skip i = true -> i = 0) -> sep init (refine cost skip init).
+Proof. exact refine_sep. Qed.
+
+(* Given targets with that shape (rank = bit-width of a precision index, any order of the precisions),
+   the two passes leave a channel where it was or move it to a precision of strictly higher rank. *)
+Theorem C20_reassign_promotes : forall (P C : nat) (cur : list nat) (orders : list (list nat)) (best : list nat) (rank : nat -> nat),
+  length cur = C -> Forall (fun p => p < P) cur ->
+  length orders = P -> Forall (fun o => Permutation o (seq 0 C)) orders -> length best = P ->
+  (forall p q, p < P -> q < P -> cc cur p < nth p best 0 -> nth q best 0 < cc cur q -> rank q < rank p) ->
+  forall c x, c < C -> get (reassign_abs cur orders best) c = Some x ->
+  x = nth c cur 0 \/ rank (nth c cur 0) < rank x.
+Proof. exact reassign_promotes. Qed.
+
+(* Composition, the quantizer listing its precisions in ANY order (own_of = sorted_indexes,
+   pos_of = inverse_indexes): no channel of the refined layer ends at a lower precision. *)
+Theorem C20_no_channel_demoted_any_order : forall (cost : vec -> Q) (skip : nat -> bool),
+  (forall i, skip i = true -> i = 0) ->
+  forall (P C : nat) (cur : list nat) (orders : list (list nat)),
+  length cur = C -> Forall (fun p => p < P) cur ->
+  length orders = P -> Forall (fun o => Permutation o (seq 0 C)) orders ->
+  forall own_of pos_of : nat -> nat, (forall p, p < P -> pos_of p < P /\ own_of (pos_of p) = p) ->
+  forall c x, c < C ->
+  get (reassign_abs cur orders (best_own cost skip P cur own_of pos_of)) c = Some x ->
+  x = nth c cur 0 \/ pos_of (nth c cur 0) < pos_of x.
+Proof. exact refine_reassign_promotes. Qed.
+
+(* The documented use (precisions in increasing order): for every cost function, every ranking of the
+   channels, every number of precisions and channels, the refined layer has no channel below its
+   previous precision, every channel has exactly one precision, and every count the search chose is met. *)
+Theorem C20_no_channel_demoted : forall (cost : vec -> Q) (skip : nat -> bool),
+  (forall i, skip i = true -> i = 0) ->
+  forall (P C : nat) (cur : list nat) (orders : list (list nat)),
+  length cur = C -> Forall (fun p => p < P) cur ->
+  length orders = P -> Forall (fun o => Permutation o (seq 0 C)) orders ->
+  forall c x, c < C -> get (reassign_abs cur orders (refined cost skip P cur)) c = Some x -> nth c cur 0 <= x.
+Proof. exact refined_no_channel_demoted. Qed.
+
+Theorem C20_refined_counts_met : forall (cost : vec -> Q) (skip : nat -> bool) (P C : nat) (cur : list nat) (orders : list (list nat)),
+  length cur = C -> Forall (fun p => p < P) cur ->
+  length orders = P -> Forall (fun o => Permutation o (seq 0 C)) orders ->
+  reassign_ok (reassign_abs cur orders (refined cost skip P cur)) (refined cost skip P cur) = true.
+Proof. exact refined_counts_met. Qed.
+
+(* the shape of the targets matters: with a deficit BELOW a surplus the same two passes demote a channel
+   (channel 3 goes from precision 2 to precision 1), so C20_refine_separates is what the claim rests on *)
+Example C20_reassign_demotes_without_separation :
+  map (get (reassign_abs [0; 0; 2; 2] [[0;1;2;3]; [3;2;1;0]; [2;3;0;1]; [0;1;2;3]] [1; 1; 1; 1])) [0; 1; 2; 3]
+  = [Some 0; Some 3; Some 2; Some 1].
+Proof. vm_compute. reflexivity. Qed.
+
 (* the algorithm of the pinned upstream commit (reassign_v0) misses counts *)
 Theorem C20_upstream_reassign_refuted : exists scores best,
   fold_right Nat.add 0 best = ncols scores /\ reassign_ok (reassign_v0 scores best) best = false.
@@ -60,3 +114,8 @@ Print Assumptions C20_up_upper.
 Print Assumptions C20_reassign_total.
 Print Assumptions C20_reassign_matrix_total.
 Print Assumptions C20_upstream_reassign_refuted.
+Print Assumptions C20_refine_separates.
+Print Assumptions C20_reassign_promotes.
+Print Assumptions C20_no_channel_demoted_any_order.
+Print Assumptions C20_no_channel_demoted.
+Print Assumptions C20_refined_counts_met.
